@@ -25,6 +25,13 @@ def run_property(prop, tier, seed, root=None, quiet=False, only=None):
         generic.state_rule(repo, chk)
         generic.decorator_rule(repo, chk)
         generic.definitions_rule(repo, chk)
+        chk.explanation = (getattr(chk, 'explanation', '') or '') + (
+            ' | Rules run after every property\'s own: RECUR / DEPS: each analysed function and each function within %d call-graph steps has '
+            'exactly the effects of its reviewed reference form (normal form modulo renaming, sound inlining, AC, idiom table of DESIGN section 3); '
+            'STATE: no cross-call state outside the receiver object; DECOR: only transparent decorators; DEFS: module / class level data '
+            'definitions have their reviewed value. A failing obligation on a function rewritten wholesale is reported as RESTRUCTURED (exit 2); '
+            'specific-rule failures are implied away only when every function in scope is proven equal or textually unchanged.' % (
+                generic.CONE_DEPTH.get(prop, 2)))
         if tier == 'thorough' and root is None:
             from . import selftest
             selftest.run(prop, repo, chk, seed)
